@@ -1,4 +1,4 @@
-import ElvisVerif.Lemmas.TcpFullUna
+import ElvisVerif.Lemmas.TcpFullGap
 import ElvisVerif.Props.C01Converge
 /-!
 # C01 — convergence from (almost) any reachable state of the closed system nobody closes
@@ -203,6 +203,78 @@ example : ∃ sys0 s : Sys, ∃ rs, ∃ ta tb : Tcb,
     · simp at key
   · simp at key
 
+/-! ## (c) a delivery that fills a gap drains the reorder heap -/
+
+/-- **(c) the drain progress lemma through a NON-empty reorder heap, at system level.**  In every reachable state in
+    which both endpoints are ESTABLISHED: let `t` be `x`'s TCB (ANY reorder heap), `u` the peer's, and let `x`'s receive
+    buffer have room for everything the peer has numbered (`|buffered| + (SND.NXT_peer − RCV.NXT) ≤ 65535`; e.g. the
+    buffer is empty).  Delivering history element `i` — a text-bearing segment `σ` of the peer that starts at or before
+    `RCV.NXT` (a retransmission, or the segment that fills the gap) — succeeds, and afterwards
+    * `RCV.NXT ≥ SEG.SEQ + SEG.LEN`: the segment is consumed whatever was parked (the root of the heap is the least,
+      so the processing loop cannot stop while it is parked; junk popped before it only moves `RCV.NXT` forward);
+    * every segment still parked is one that was parked before (or `σ`) and is STRICTLY AHEAD of the new `RCV.NXT`:
+      every contiguous parked segment has been drained in the same call;
+    * nothing is lost: the buffer grew by exactly as many bytes as `RCV.NXT` advanced;
+    * the endpoint is still ESTABLISHED and the last header on its one-shot queue acknowledges the new `RCV.NXT`.
+    (`Full.drain_est`, `Full.arrive_est`; TCB level: `Lemmas/TcpFullEst.lean`.) -/
+theorem c01_gap_fill_partial (ia ib : Seq) (ma mb : U16) (simultaneous : Bool) (sys0 s : Sys) (rs : List Res)
+    (hma : SPACE_FOR_HEADERS ≤ ma.toNat) (hmb : SPACE_FOR_HEADERS ≤ mb.toNat)
+    (h0 : Sys.run {} [.open .A ia ma, if simultaneous then .open .B ib mb else .listen .B ib mb] = .ok (sys0, rs))
+    (hrun : PlainRun sys0 s) (h31 : RoomH s) (x : SideId) (t u : Tcb)
+    (ht : (s.side x).tcb = some t) (hu : (s.side x.peer).tcb = some u)
+    (et : t.state = .Established) (eu : u.state = .Established)
+    (hroom : t.incoming.text.length + (u.sent - off (issOf ia ib x.peer) t.rcv.nxt) ≤ 65535)
+    (i : Nat) (σ : Segment) (hn : s.nth i = some σ) (hsrc : σ.hdr.srcPort = x.peer.port) (htxt : σ.text ≠ [])
+    (hle : off (issOf ia ib x.peer) σ.hdr.seq ≤ off (issOf ia ib x.peer) t.rcv.nxt) :
+    ∃ s' t', s.step (.deliver x i) = .ok (s', .arrived .Ok) ∧ (s'.side x).tcb = some t' ∧
+      s'.side x.peer = s.side x.peer ∧ t'.state = .Established ∧
+      off (issOf ia ib x.peer) σ.hdr.seq + σ.text.length ≤ off (issOf ia ib x.peer) t'.rcv.nxt ∧
+      (∀ g ∈ t'.incoming.segments, (g = σ ∨ g ∈ t.incoming.segments) ∧
+        off (issOf ia ib x.peer) t'.rcv.nxt < off (issOf ia ib x.peer) g.hdr.seq) ∧
+      t'.incoming.text.length + off (issOf ia ib x.peer) t.rcv.nxt =
+        t.incoming.text.length + off (issOf ia ib x.peer) t'.rcv.nxt ∧
+      (∃ h, t'.outgoing.oneshot.getLast? = some h ∧ h.ack = t'.rcv.nxt) := by
+  have hg := good_of_reach ia ib ma mb simultaneous sys0 s rs hma hmb h0 hrun h31
+  have hf := finv_of_reach ia ib ma mb simultaneous sys0 s rs hma hmb h0 hrun h31
+  have hmem : σ ∈ s.history := nth_mem s i σ hn
+  have hval : C01.Valid (issOf ia ib x.peer) (s.side x.peer).submitted σ := hg.conv.c01.hist σ hmem x.peer hsrc
+  have hsyn : σ.hdr.ctl.syn = false := by
+    cases h : σ.hdr.ctl.syn with
+    | false => rfl
+    | true => exact absurd (hval.syn h).2 htxt
+  obtain ⟨t', e1, er', k', hs', prog'⟩ := deliver_gap hg hf x t u ht hu et eu hroom i σ hn hsrc hsyn
+  obtain ⟨p1, p2⟩ := prog' htxt hle
+  exact ⟨_, t', e1, by rw [side_setSide_same], by rw [side_setSide_peer], er'.el.st, p1,
+    fun g hg' => ⟨hs' g hg', er'.ahead g hg'⟩, k'.bufq, p2⟩
+
+/-! ## (e) the clean-up round -/
+
+/-- **(e) the clean-up round.**  From every reachable state in which both endpoints are ESTABLISHED — receive buffers
+    full or not, reorder heaps, queues and timers arbitrary — `fairRound 1` (both timers expire; both sides emit;
+    everything emitted is delivered in order; both applications read) succeeds, is a run of plain ops, and ends with
+    both endpoints ESTABLISHED, BOTH RECEIVE BUFFERS EMPTY, and no more unsent text than before. -/
+theorem c01_cleanup_round_partial (ia ib : Seq) (ma mb : U16) (simultaneous : Bool) (sys0 s : Sys) (rs : List Res)
+    (hma : 100 ≤ ma.toNat) (hmb : 100 ≤ mb.toNat)
+    (h0 : Sys.run {} [.open .A ia ma, if simultaneous then .open .B ib mb else .listen .B ib mb] = .ok (sys0, rs))
+    (hrun : PlainRun sys0 s) (h31 : RoomH s) (ta tb : Tcb) (hta : s.a.tcb = some ta) (htb : s.b.tcb = some tb)
+    (ea : ta.state = .Established) (eb : tb.state = .Established) :
+    ∃ s' ta' tb', fairRound 1 s = .ok s' ∧ PlainRun s s' ∧ RoomH s' ∧ s'.a.tcb = some ta' ∧ s'.b.tcb = some tb' ∧
+      ta'.state = .Established ∧ tb'.state = .Established ∧ ta'.incoming.text = [] ∧ tb'.incoming.text = [] ∧
+      ta'.outgoing.text.length ≤ ta.outgoing.text.length ∧ tb'.outgoing.text.length ≤ tb.outgoing.text.length := by
+  have h50 : SPACE_FOR_HEADERS = 50 := rfl
+  have hg := good_of_reach ia ib ma mb simultaneous sys0 s rs (by omega) (by omega) h0 hrun h31
+  have hf := finv_of_reach ia ib ma mb simultaneous sys0 s rs (by omega) (by omega) h0 hrun h31
+  have hm : ∀ x, SPACE_FOR_HEADERS < (mtuOf ma mb x).toNat := by
+    intro x
+    cases x
+    · show 50 < ma.toNat; omega
+    · show 50 < mb.toNat; omega
+  have ua := (c01_established_syn_acked ia ib ma mb simultaneous sys0 s rs (by omega) (by omega) h0 hrun h31 .A ta hta ea).2.1
+  have ub := (c01_established_syn_acked ia ib ma mb simultaneous sys0 s rs (by omega) (by omega) h0 hrun h31 .B tb htb eb).2.1
+  obtain ⟨s1, ta1, tb1, hf1, hr1, hg1, hc1, la, lb⟩ := cleanup_round s hg hf hm _ _
+    ⟨ta, hta, ea, ua, Nat.le_refl _⟩ ⟨tb, htb, eb, ub, Nat.le_refl _⟩
+  exact ⟨s1, ta1, tb1, hf1, hr1, hg1.room, hc1.ha, hc1.hb, hc1.a.st, hc1.b.st, hc1.a.buf, hc1.b.buf, la, lb⟩
+
 /-! ## from any reachable state with both endpoints ESTABLISHED -/
 
 /-- **C01 convergence from ANY reachable state in which both endpoints are ESTABLISHED** (`_partial`: everything but
@@ -366,5 +438,114 @@ example : ∃ sys0 s : Sys, ∃ rs, ∃ ta tb : Tcb,
       · simp at k1
     · simp at key
   · simp at key
+
+/-! ### non-vacuity of (c) and (e) -/
+
+/-- handshake; A's [1,2,3] (history element 3) is NOT delivered; A's [4,5] (element 4) is delivered to B twice: two copies
+    are parked behind the gap -/
+def gapOps : List Op :=
+  [.emit .A, .deliver .B 0, .emit .B, .deliver .A 1, .emit .A, .deliver .B 2,
+   .write .A [1, 2, 3], .emit .A, .write .A [4, 5], .emit .A, .deliver .B 4, .deliver .B 4]
+
+def gapCheck : Bool :=
+  match Sys.run {} [.open .A 1000 1500, .listen .B 5000 1500] with
+  | .ok (sys0, _) =>
+    match plainRunB sys0 gapOps with
+    | some s =>
+      decide (s.a.submitted.length + 2 < 2147483648) && decide (s.b.submitted.length + 2 < 2147483648) &&
+      (match s.a.tcb, s.b.tcb, s.nth 3 with
+        | some ta, some tb, some σ => ta.state == .Established && tb.state == .Established &&
+            decide (tb.incoming.text.length + (ta.sent - off 1000 tb.rcv.nxt) ≤ 65535) &&
+            σ.hdr.srcPort == SideId.A.port && σ.text == [1, 2, 3] &&
+            decide (off 1000 σ.hdr.seq ≤ off 1000 tb.rcv.nxt) && tb.incoming.segments.length == 2 &&
+            decide (off 1000 tb.rcv.nxt = 1)
+        | _, _, _ => false) &&
+      (match s.step (.deliver .B 3) with
+        | .ok (s', _) =>
+          (match s'.b.tcb with
+            | some tb' => tb'.incoming.segments.isEmpty && decide (off 1000 tb'.rcv.nxt = 6) &&
+                tb'.incoming.text == [1, 2, 3, 4, 5]
+            | none => false)
+        | .error _ => false)
+    | none => false
+  | .error _ => false
+
+/-- the hypotheses of `c01_gap_fill_partial` hold in that reachable state for `x = B`, `i = 3` (the lost segment [1,2,3]):
+    two segments are parked, `RCV.NXT − ISS_A = 1`; the delivery, evaluated, moves `RCV.NXT − ISS_A` to 6, empties the
+    heap and leaves [1,2,3,4,5] in the buffer -/
+example : ∃ sys0 s : Sys, ∃ rs, ∃ ta tb : Tcb, ∃ σ : Segment,
+    Sys.run {} [.open .A 1000 1500, if false then .open .B 5000 1500 else .listen .B 5000 1500] = .ok (sys0, rs) ∧
+    PlainRun sys0 s ∧ RoomH s ∧ (s.side .B).tcb = some tb ∧ (s.side SideId.B.peer).tcb = some ta ∧
+    tb.state = .Established ∧ ta.state = .Established ∧
+    tb.incoming.text.length + (ta.sent - off (issOf 1000 5000 SideId.B.peer) tb.rcv.nxt) ≤ 65535 ∧
+    s.nth 3 = some σ ∧ σ.hdr.srcPort = SideId.B.peer.port ∧ σ.text ≠ [] ∧
+    off (issOf 1000 5000 SideId.B.peer) σ.hdr.seq ≤ off (issOf 1000 5000 SideId.B.peer) tb.rcv.nxt ∧
+    tb.incoming.segments.length = 2 ∧
+    ∃ s' tb', s.step (.deliver .B 3) = .ok (s', .arrived .Ok) ∧ s'.b.tcb = some tb' ∧ tb'.incoming.segments = [] ∧
+      off 1000 tb'.rcv.nxt = 6 ∧ tb'.incoming.text = [1, 2, 3, 4, 5] := by
+  have key : gapCheck = true := by decide
+  unfold gapCheck at key
+  split at key
+  · rename_i sys0 rs e0
+    split at key
+    · rename_i s e1
+      simp only [Bool.and_eq_true, decide_eq_true_eq] at key
+      obtain ⟨⟨⟨r1, r2⟩, k1⟩, k2⟩ := key
+      split at k1
+      · rename_i ta tb σ hta htb hσ
+        simp only [Bool.and_eq_true, beq_iff_eq, decide_eq_true_eq] at k1
+        obtain ⟨⟨⟨⟨⟨⟨⟨x1, x2⟩, x3⟩, x4⟩, x5⟩, x6⟩, x7⟩, x8⟩ := k1
+        split at k2
+        · rename_i s' r' e2
+          split at k2
+          · rename_i tb' htb'
+            simp only [Bool.and_eq_true, beq_iff_eq, decide_eq_true_eq, List.isEmpty_iff] at k2
+            have hr : r' = .arrived .Ok := by
+              have hg := good_of_reach 1000 5000 1500 1500 false sys0 s rs (by decide) (by decide) e0
+                (plainRunB_sound _ _ _ e1) ⟨r1, r2⟩
+              have hf := finv_of_reach 1000 5000 1500 1500 false sys0 s rs (by decide) (by decide) e0
+                (plainRunB_sound _ _ _ e1) ⟨r1, r2⟩
+              have hsyn : σ.hdr.ctl.syn = false := by
+                cases h : σ.hdr.ctl.syn with
+                | false => rfl
+                | true =>
+                  have hv : C01.Valid (issOf 1000 5000 SideId.B.peer) (s.side SideId.B.peer).submitted σ :=
+                    hg.conv.c01.hist σ (nth_mem s 3 σ hσ) SideId.B.peer x4
+                  have := (hv.syn h).2
+                  rw [x5] at this; cases this
+              obtain ⟨ty', e3, _⟩ := deliver_gap hg hf .B tb ta htb hta x2 x1 x3 3 σ hσ x4 hsyn
+              rw [e2] at e3
+              cases e3
+              rfl
+            subst hr
+            exact ⟨sys0, s, rs, ta, tb, σ, e0, plainRunB_sound _ _ _ e1, ⟨r1, r2⟩, htb, hta, x2, x1, x3, hσ, x4,
+              by rw [x5]; simp, x6, x7, s', tb', e2, htb', k2.1.1, k2.1.2, k2.2⟩
+          · simp at k2
+        · simp at k2
+      · simp at k1
+    · simp at key
+  · simp at key
+
+/-- `c01_cleanup_round_partial` on the state of `dirtyOps` (A's receive buffer holds [9, 8], two segments are parked in
+    B's heap): the round, evaluated, leaves both buffers empty and both sides ESTABLISHED -/
+def cleanCheck : Bool :=
+  match Sys.run {} [.open .A 1000 1500, .listen .B 5000 1500] with
+  | .ok (sys0, _) =>
+    match plainRunB sys0 dirtyOps with
+    | some s =>
+      (match s.a.tcb with
+        | some ta => ta.incoming.text == [9, 8]
+        | none => false) &&
+      (match fairRound 1 s with
+        | .ok s' =>
+          (match s'.a.tcb, s'.b.tcb with
+            | some ta', some tb' => ta'.incoming.text.isEmpty && tb'.incoming.text.isEmpty &&
+                ta'.state == .Established && tb'.state == .Established && s'.a.delivered == [9, 8]
+            | _, _ => false)
+        | .error _ => false)
+    | none => false
+  | .error _ => false
+
+example : cleanCheck = true := by decide
 
 end Elvis.Tcp
